@@ -24,3 +24,4 @@ Definition c17x_l_ext1 : list N := Eval vm_compute in c17_ln "  /Extends 1 0 R".
 Definition c17x_l_pair4 : list N := Eval vm_compute in c17_ln "4 0".
 Definition c17x_l_member4 : list N := Eval vm_compute in c17_ln "%% Object stream: object 4, index 0".
 Definition c17x_d_3 : list N := Eval vm_compute in fq_bs "3".
+Definition c17x_l_mykey : list N := Eval vm_compute in c17_ln "  /MyKey 7".
